@@ -63,6 +63,9 @@ type EncSpec struct {
 	// SessionKey, when set, names the content key: elements encrypted with the same name share
 	// one session key (the IV still follows the plaintext)
 	SessionKey string `json:"session_key,omitempty"`
+	// PadResidue r > 0: the plaintext is followed by blanks until its length is r-1 modulo 16
+	// (EncryptInPlace only)
+	PadResidue int `json:"pad_residue,omitempty"`
 }
 
 type ctrReader struct {
@@ -364,7 +367,11 @@ func RespellEA(ea, root *etree.Element, style int) {
 // EncryptInPlace replaces el by its EncryptedAssertion in el's parent, at the same position.
 func EncryptInPlace(el *etree.Element, e EncSpec) *etree.Element {
 	parent := el.Parent()
-	ea := EncryptPlaintext(StandaloneBytes(el), e)
+	pt := StandaloneBytes(el)
+	for e.PadResidue > 0 && len(pt)%16 != e.PadResidue-1 {
+		pt = append(pt, ' ')
+	}
+	ea := EncryptPlaintext(pt, e)
 	idx := el.Index()
 	parent.RemoveChildAt(idx)
 	parent.InsertChildAt(idx, ea)
